@@ -1,6 +1,7 @@
 import I18n.Lemmas.FmtCheckPy
 import I18n.Lemmas.FmtCheckPreimage
 import I18n.Generated.TagSites
+import I18n.Lemmas.FmtCheckProbes
 /-!
 # C14 — translations are flagged iff their format arguments disagree
 
@@ -68,6 +69,22 @@ def isMsgformatSite (s : String × String × String × Nat × Nat × String) : B
 theorem tag_sites_pin :
     (Generated.TagSites.sites.filter isMsgformatSite).map (fun s => (s.1, s.2.1, s.2.2.1, s.2.2.2.2.2)) = expectedSites := by
   decide +kernel
+
+/-- **The model re-computes every probe of the live code, inside the kernel.**  `tools/translate/fmtcheck2lean.py` runs, on
+    every check, `get_last_integer_conversion(n)` (all `n`, 22 strings) and the four `check_args` (both tolerance settings,
+    82 pairs — the brace kinds on the signatures parsed by the real parsers) and dumps what it observes; here the Lean
+    model is evaluated on the same rows and agrees on all of them: returned conversion / `None` / `IndexError`; tag names in
+    order with their integer extras.  Also: the set of format kinds that have a checker. -/
+theorem probes_pin :
+    Generated.FmtCheckTables.checkerNames.map String.toList = checkerNames ∧
+    Generated.FmtCheckTables.lastIntProbes.all (fun p => lastIntProbe p.1 p.2.1 == p.2.2) = true ∧
+    Generated.FmtCheckTables.cArgsProbes.all (fun p => cArgsProbe p.1 p.2.1 p.2.2.1 == some p.2.2.2) = true ∧
+    Generated.FmtCheckTables.pyArgsProbes.all (fun p => pyArgsProbe p.1 p.2.1 p.2.2.1 == some p.2.2.2) = true ∧
+    Generated.FmtCheckTables.braceArgsProbes.all (fun p =>
+      summarize (checkArgsPyBrace probePfx "msgid".toList p.1 "msgstr".toList p.2.1 p.2.2.1) == some p.2.2.2) = true ∧
+    Generated.FmtCheckTables.perlArgsProbes.all (fun p =>
+      summarize (checkArgsPerlBrace probePfx "msgid".toList p.1 "msgstr".toList p.2.1 p.2.2.1) == some p.2.2.2) = true :=
+  ⟨checkerNames_pin, lastInt_probes_pin, cArgs_probes_pin, pyArgs_probes_pin, braceArgs_probes_pin, perlArgs_probes_pin⟩
 
 /-! ## C -/
 
